@@ -27,6 +27,7 @@ EXPLANATION = (
     "search/__call__ only on instances that are not result-carrying or that are "
     "constructed inside the same query."
     "Round 7: (CLASSSTATE) no class-level mutable container is mutated through self; (FUTURES, shared with C08) outstanding pool trials belong to one search; (OWNRUN) the exceptional edge out of the sub-optimizer's run counts as 'not searched'. "
+    'Round 8: (MEMOFACTORY) no memoised factory hands out a result-carrying optimizer. '
 )
 ASSUMPTIONS = (
     "single dict get/set operations are atomic in CPython",
